@@ -275,7 +275,7 @@ func c13History(c *Ctx, st *c13State, raw json.RawMessage) {
 	for st.corpus[i1].Perm {
 		i1 = (i1 + 1) % len(st.corpus)
 	}
-	for st.corpus[i2].Perm || i2 == i1 {
+	for st.corpus[i2].Perm || st.corpus[i2].Src == st.corpus[i1].Src {
 		i2 = (i2 + 1) % len(st.corpus)
 	}
 	uniq := fmt.Sprintf("<%%# h%d.%d %%>", c.Seed, st.n)
